@@ -28,7 +28,8 @@ def run(tier):
               "operands (BigNat binary gcd); log2i on every power of two, +-1 and neighbours for all eight types; random_int "
               "on boundary and random (lo,hi) with 20k-100k draws; random_data request sequences around the 4096-byte refill "
               "on fresh threads; Vector2 exhaustively for components in [-4,4], Vector3/4 sampled pairs, every operator; "
-              "random small-integer matrices; strictly diagonally dominant matrices for inversion (12-digit fixed point); "
+              "random small-integer matrices; strictly diagonally dominant matrices for inversion (12-digit fixed point), "
+              "every fourth scaled by 2^k, |k| <= 200; "
               "distinct = (operation, type) batches")
     c.assumptions = ["inverse() results are logged as llround(x * 1e12) split in two halves (trusted: libm llround)",
                      "random_data 'filled' means: no requested byte kept its pre-fill value in all six differently pre-filled calls"]
